@@ -7,7 +7,7 @@ from .. import common, doccheck, gen_doc, uiparse
 from ..gen_doc import DocGen, Group
 
 KINDS = ["unknown-property", "ill-typed", "duplicate-binding", "duplicate-grouped", "duplicate-attached",
-         "unknown-type", "invalid-type", "unknown-attached-type", "unknown-signal", "read-only"]
+         "unknown-type", "invalid-type", "unknown-attached-type", "unknown-signal", "read-only", "ill-typed-pseudo"]
 ARRAYS = ("stretch", "rowstretch", "columnstretch", "rowminimumheight", "columnminimumwidth")
 
 
@@ -206,6 +206,15 @@ def run(tier, seed, replay=None):
                 continue
             if af:
                 v.violation("tree:" + f.kind, "faulted form does not preserve the object tree: %s" % af[0][1], rp)
+                continue
+            if f.obj.kind == "separator":
+                # a separator action has no element of its own: its whole representation is its parent's
+                # <addaction name="separator"/>, which is outside the faulty object and must stay
+                if canon(tb) != canon(tf):
+                    v.violation("nonlocal:" + f.kind, "fault on a separator action changes the form (the separator's only trace is its "
+                                "parent's <addaction name=\"separator\"/>)", rp)
+                    continue
+                by_kind[f.kind + "@separator"] = by_kind.get(f.kind + "@separator", 0) + 1
                 continue
             ef = mf[f.obj]
             idx = faulted.objects().index(f.obj)
